@@ -351,6 +351,7 @@ fn main() {
         run_specs(&corpus, "c", &mut out, &mut st, &mut emitted);
     }
     let (docs_per_lang, hist_per_doc) = if thorough { (40, 12) } else { (8, 3) };
+    let island_per_doc = if thorough { 6 } else { 2 };
     let langs: Vec<String> = if only.is_empty() { zoo::list() } else { only };
     let mut hist_no = 0usize;
     for id in langs {
@@ -380,6 +381,39 @@ fn main() {
             let mut alphabet: Vec<Vec<u8>> = toks.iter().take(12).map(|t| t.text.clone().into_bytes()).collect();
             alphabet.extend([b" ".to_vec(), b"\n".to_vec(), b"x".to_vec(), b"(".to_vec(), "é".as_bytes().to_vec(), b"\n\n".to_vec()]);
             let alpha_refs: Vec<&[u8]> = alphabet.iter().map(|v| v.as_slice()).collect();
+            // "moving island" histories: the text stays the same, the NUMBER of ranges stays the same, only the
+            // excluded islands move / grow / shrink; the first and last token stay included, so the enclosing
+            // nodes (root, lists) look identical from outside and only the included-range differences can make
+            // the walk look inside them
+            for _h in 0..(if bounds.len() >= 4 { island_per_doc } else { 0 }) {
+                let n = text.len();
+                let gaps = rng.range(1, 2);
+                let pick_islands = |rng: &mut Rng| -> Vec<(usize, usize)> {
+                    // `gaps` disjoint islands strictly inside (first bound, last bound), cut at token bounds, sometimes nudged by a byte
+                    let inner: Vec<usize> = bounds.iter().copied().filter(|&b| b > bounds[0] && b < n).collect();
+                    let mut cuts: Vec<usize> = (0..2 * gaps).map(|_| if inner.is_empty() { n / 2 } else { *rng.pick(&inner) }).collect();
+                    cuts.sort();
+                    let mut ranges = Vec::new();
+                    let mut start = 0usize;
+                    for g in 0..gaps {
+                        let (mut a, mut b) = (cuts[2 * g], cuts[2 * g + 1]);
+                        if rng.chance(1, 5) && b < n { b += 1; }
+                        if rng.chance(1, 5) && a > start + 1 { a -= 1; }
+                        ranges.push((start, a.max(start)));
+                        start = b.max(a);
+                    }
+                    ranges.push((start, if rng.chance(1, 3) { UMAX } else { n }));
+                    ranges
+                };
+                let r0 = pick_islands(&mut rng);
+                let nsteps = rng.range(2, 4);
+                let mut steps = Vec::new();
+                for _ in 0..nsteps {
+                    steps.push(Step { edits: vec![], ranges: pick_islands(&mut rng) });
+                }
+                hist_no += 1;
+                emit_history(&mut out, &format!("{id}-{hist_no}"), &id, &mut parser, &text, &r0, &steps, &mut st);
+            }
             for _h in 0..hist_per_doc {
                 let with_ranges = rng.chance(1, 2);
                 let r0 = if with_ranges { random_ranges(&mut rng, text.len(), &bounds) } else { vec![] };
